@@ -77,6 +77,10 @@ type ValOpts struct {
 	// Only meaningful with Iterator.RecursionSupport on (without it the library
 	// documents that cyclic data is not supported).
 	Shared bool
+	// NoCycles restricts Shared to completed data (a DAG). For scenarios where
+	// every write of the megabytes a cyclic value produces before the depth
+	// limit stops the walk would be a scheduler step.
+	NoCycles bool
 }
 
 func DrawValOpts(t *tape.Tape) ValOpts {
@@ -89,7 +93,42 @@ type vgen struct {
 	ok     bool
 	refs   []reflect.Value // pointers and maps created so far (candidates for sharing and cycles)
 	shared int
+	// open holds the pointers and maps still being filled (the ancestors of
+	// the position being filled). A value gets EITHER exactly one reference to
+	// an ancestor (one cycle) OR any number of references to completed data (a
+	// DAG): mixing them, or two cycles, makes the unrolled value - what a
+	// marshaler without recursion support walks until the depth limit stops
+	// it - exponentially large, which says nothing about the library.
+	open   map[uintptr]bool
+	cyclic bool
+	dag    bool
 }
+
+// mayShare reports whether the position being filled may refer to r, and
+// records the kind of sharing the value has from now on.
+func (g *vgen) mayShare(r reflect.Value) bool {
+	if g.cyclic {
+		return false
+	}
+	if g.open[r.Pointer()] {
+		if g.dag || g.o.NoCycles {
+			return false
+		}
+		g.cyclic = true
+		return true
+	}
+	g.dag = true
+	return true
+}
+
+func (g *vgen) enter(r reflect.Value) {
+	if g.open == nil {
+		g.open = map[uintptr]bool{}
+	}
+	g.open[r.Pointer()] = true
+}
+
+func (g *vgen) leave(r reflect.Value) { delete(g.open, r.Pointer()) }
 
 // DrawValue draws a type and a value of it.
 func DrawValue(t *tape.Tape, o ValOpts) Val {
@@ -340,9 +379,11 @@ func (g *vgen) fill(v reflect.Value, depth int) {
 		if g.o.Shared && len(g.refs) > 0 && t.Chance("v-sharediface", 1, 5) {
 			// an interface holding an existing pointer or map (possibly an
 			// ancestor: a cycle through an interface)
-			v.Set(g.refs[t.Intn("v-sharediface-which", len(g.refs))])
-			g.shared++
-			return
+			if r := g.refs[t.Intn("v-sharediface-which", len(g.refs))]; g.mayShare(r) {
+				v.Set(r)
+				g.shared++
+				return
+			}
 		}
 		switch t.Intn("v-iface", 6) {
 		case 0:
@@ -392,6 +433,8 @@ func (g *vgen) fill(v reflect.Value, depth int) {
 		m := reflect.MakeMap(v.Type())
 		if g.o.Shared {
 			g.refs = append(g.refs, m)
+			g.enter(m)
+			defer g.leave(m)
 		}
 		// at most one entry: Go map iteration order cannot be seeded
 		if t.Bool("v-mapentry") && depth < g.o.MaxDepth+2 {
@@ -410,7 +453,7 @@ func (g *vgen) fill(v reflect.Value, depth int) {
 			// point at something that already exists: a sibling (shared data) or
 			// an ancestor still being filled (a cycle)
 			for i := len(g.refs) - 1; i >= 0; i-- {
-				if g.refs[i].Type() == v.Type() {
+				if g.refs[i].Type() == v.Type() && g.mayShare(g.refs[i]) {
 					v.Set(g.refs[i])
 					g.shared++
 					return
@@ -419,7 +462,9 @@ func (g *vgen) fill(v reflect.Value, depth int) {
 		}
 		p := reflect.New(v.Type().Elem())
 		g.refs = append(g.refs, p)
+		g.enter(p)
 		g.fill(p.Elem(), depth+1)
+		g.leave(p)
 		v.Set(p)
 	case reflect.Struct:
 		for i := 0; i < v.NumField(); i++ {
